@@ -128,5 +128,185 @@ impl Get for Impl {
 }
 }
 
+// ---- bindings (C12): (set n v e) / (define n m e) evaluate e on the SAME context with one more binding ----
+pub mod f_set {
+use super::*;
+//@@ item src/functions/variables/set.rs :: fn get :: struct Impl
+//@@ rewrite pub_tuple pub_struct
+//@@ enditem
+impl Get for Impl {
+    open spec fn get_spec(&self, context: &Context) -> Option<JsonValue> {
+        match (arg(self.0@, context, 0), arg(self.0@, context, 1)) {
+            (Some(JsonValue::String(name)), Some(v)) => arg(self.0@, &ctx_with_variable(*context, name, v), 2),
+            _ => None,
+        }
+    }
+//@@ fn f.set = src/functions/variables/set.rs :: fn get :: impl Get for Impl :: fn get
+//@@ safety C12 C04
+//@@ post binds "(set n v e) is e evaluated on the caller's context extended by the variable n = v (name and value evaluated on the caller's context) and nothing else changed; nothing when n is not a string or v is absent"
+//@@ endfn
+}
+}
+pub mod f_define {
+use super::*;
+//@@ item src/functions/variables/define.rs :: fn get :: struct Impl
+//@@ rewrite pub_tuple pub_struct
+//@@ enditem
+impl Get for Impl {
+    open spec fn get_spec(&self, context: &Context) -> Option<JsonValue> {
+        match arg(self.0@, context, 0) {
+            Some(JsonValue::String(name)) => if self.0@.len() > 1 { arg(self.0@, &ctx_with_definition(*context, name, self.0@[1]), 2) } else { None },
+            _ => None,
+        }
+    }
+//@@ fn f.define = src/functions/variables/define.rs :: fn get :: impl Get for Impl :: fn get
+//@@ safety C12 C04
+//@@ post binds "(define n m e) is e evaluated on the caller's context extended by the macro n = the UNEVALUATED second argument and nothing else changed; nothing when n is not a string"
+//@@ endfn
+}
+}
+// ---- (| a b ...): each stage sees the previous stage's value as input and the previous input as its parent ----
+pub open spec fn pipe_from(args: Seq<Rc<dyn Get>>, ctx: Context, i: int) -> Option<JsonValue>
+    decreases args.len() - i
+{
+    if i < 0 || i >= args.len() { Some(ctx.inp()) } else {
+        match args[i].get_spec(&ctx) { Some(v) => pipe_from(args, ctx_with_input(ctx, v), i + 1), None => None }
+    }
+}
+pub mod f_pipe {
+use super::*;
+use std::ops::Deref;
+//@@ item src/functions/basic/flow/pipe.rs :: fn get :: struct Impl
+//@@ rewrite pub_tuple pub_struct
+//@@ enditem
+impl Get for Impl {
+    open spec fn get_spec(&self, context: &Context) -> Option<JsonValue> {
+        pipe_from(self.0@, ctx_with_input(*context, context.inp()), 0)
+    }
+//@@ fn f.pipe = src/functions/basic/flow/pipe.rs :: fn get :: impl Get for Impl :: fn get
+//@@ safety C12 C04
+//@@ rewrite shadow_param
+//@@ post chain "(| a b ..): a is evaluated on the caller's input, every later stage on the previous stage's value with the previous input as parent (bindings unchanged); nothing as soon as a stage gives nothing; the value of the last stage is the result"
+//@@ body-start
+        broadcast use super::cl::group_clone_is_copy;
+//@@ before-loop 1
+                let ghost c0 = context;
+//@@ loop 1 iter it
+                    invariant
+                        it.seq().len() == self.0@.len(), 0 <= it.index@ <= self.0@.len(),
+                        forall|j: int| 0 <= j < it.seq().len() ==> *(#[trigger] it.seq()[j]) == self.0@[j],
+                        pipe_from(self.0@, context, it.index@) == pipe_from(self.0@, c0, 0), c0 == ctx_with_input(*context_in, context_in.inp()),
+//@@ loop-start 1
+                    broadcast use super::cl::group_clone_is_copy;
+                    let ghost cprev = context;
+                    proof { assert(*e == self.0@[it.index@]); }
+//@@ before "return None;"
+                        proof { assert(self.0@[it.index@].get_spec(&cprev) is None); assert(pipe_from(self.0@, cprev, it.index@) is None); }
+//@@ after "context = context.with_inupt(val);"
+                        proof { assert(pipe_from(self.0@, cprev, it.index@) == pipe_from(self.0@, context, it.index@ + 1)); }
+//@@ endfn
+}
+}
+
+// ---- :name and @name (C12): the value bound to the name / the macro bound to the name evaluated on the CURRENT context ----
+pub mod f_get_variable {
+use super::*;
+//@@ item src/functions/variables/get_variable.rs :: fn get :: struct Impl
+//@@ rewrite pub_tuple pub_struct
+//@@ enditem
+impl Get for Impl {
+    open spec fn get_spec(&self, context: &Context) -> Option<JsonValue> {
+        match arg(self.0@, context, 0) {
+            Some(JsonValue::String(name)) => if context.vars().contains_key(name) { Some(context.vars()[name]) } else { None },
+            _ => None,
+        }
+    }
+//@@ fn f.get_variable = src/functions/variables/get_variable.rs :: fn get :: impl Get for Impl :: fn get
+//@@ safety C12 C04
+//@@ post lookup "(: n) is the value bound to the variable named n in the current context, nothing when unbound or n is not a string"
+//@@ body-start
+        broadcast use super::cl::group_clone_is_copy;
+//@@ endfn
+}
+}
+pub mod f_at {
+use super::*;
+//@@ item src/functions/variables/at.rs :: fn get :: struct Impl
+//@@ rewrite pub_tuple pub_struct
+//@@ enditem
+impl Get for Impl {
+    open spec fn get_spec(&self, context: &Context) -> Option<JsonValue> {
+        match arg(self.0@, context, 0) {
+            Some(JsonValue::String(name)) => if context.defs().contains_key(name) { context.defs()[name].get_spec(context) } else { None },
+            _ => None,
+        }
+    }
+//@@ fn f.at = src/functions/variables/at.rs :: fn get :: impl Get for Impl :: fn get
+//@@ safety C12 C04
+//@@ post lookup "(@ n) is the macro bound to n evaluated on the CURRENT context (same input and parents), nothing when unbound or n is not a string"
+//@@ insert-after ".and_then(|g"
+ : &Rc<dyn Get>
+//@@ insert-after ".and_then(|g|"
+ -> (o: Option<JsonValue>) ensures o == g.get_spec(context), {
+//@@ insert-after "g.get(context)"
+ }
+//@@ endfn
+}
+}
+
+// ---- map / filter: the function is evaluated with each element as input and the caller's input as parent (C12), in list order ----
+pub mod f_map {
+use super::*;
+//@@ item src/functions/list/functional/map.rs :: fn get :: struct Impl
+//@@ rewrite pub_tuple pub_struct
+//@@ enditem
+impl Get for Impl {
+    open spec fn get_spec(&self, value: &Context) -> Option<JsonValue> {
+        match arg(self.0@, value, 0) {
+            Some(JsonValue::Array(l)) => Some(json_array(vitc::filter_map_spec(l@, |v: JsonValue| arg(self.0@, &ctx_with_input(*value, v), 1)))),
+            _ => None,
+        }
+    }
+//@@ fn f.map = src/functions/list/functional/map.rs :: fn get :: impl Get for Impl :: fn get
+//@@ safety C04 C12
+//@@ rewrite filter_map_collect
+//@@ post doc "(map l f) is the list of the values of f on each element of l (element as input, the caller's input as parent), in list order, elements for which f gives nothing left out; nothing for a non-list"
+//@@ body-start
+        broadcast use group_json_names;
+//@@ insert-after ".filter_map(|v"
+ : JsonValue
+//@@ insert-after ".filter_map(|v|"
+ -> (o: Option<JsonValue>)
+                                ensures o == arg(self.0@, &ctx_with_input(*value, v), 1),
+//@@ endfn
+}
+}
+pub mod f_filter {
+use super::*;
+//@@ item src/functions/list/functional/filter.rs :: fn get :: struct Impl
+//@@ rewrite pub_tuple pub_struct
+//@@ enditem
+impl Get for Impl {
+    open spec fn get_spec(&self, value: &Context) -> Option<JsonValue> {
+        match arg(self.0@, value, 0) {
+            Some(JsonValue::Array(l)) => Some(json_array(l@.filter(|v: JsonValue| arg(self.0@, &ctx_with_input(*value, v), 1) == Some(JsonValue::Boolean(true))))),
+            _ => None,
+        }
+    }
+//@@ fn f.filter = src/functions/list/functional/filter.rs :: fn get :: impl Get for Impl :: fn get
+//@@ safety C04 C12
+//@@ rewrite filter_collect
+//@@ post doc "(filter l f) is the list of the elements of l, in list order, on which f (element as input, the caller's input as parent) gives exactly true; nothing for a non-list"
+//@@ body-start
+        broadcast use group_json_names, super::cl::group_clone_is_copy, group_json_eq;
+//@@ insert-after ".filter(|v"
+ : &JsonValue
+//@@ insert-after ".filter(|v|"
+ -> (o: bool)
+                                ensures o == (arg(self.0@, &ctx_with_input(*value, *v), 1) == Some(JsonValue::Boolean(true))),
+//@@ endfn
+}
+}
+
 } // verus!
 fn main() {}
